@@ -11,10 +11,41 @@ import (
 // C02: the same workload executed under different map orders and schedules
 // must print byte-identical output in the same order.
 
+// isInterplay says whether a corpus package is one of the hand-written ones
+// (no checker of its own; many checkers on the same nodes).
+func isInterplay(name string) bool { return strings.HasPrefix(name, "x_") || strings.HasPrefix(name, "o_") }
+
+// visitSchedule is the order in which run indices sweep the corpus: every
+// package once, the hand-written interplay packages three times.
+func (w *Worker) visitSchedule() []string {
+	if w.schedule == nil {
+		for _, n := range w.index.Names {
+			w.schedule = append(w.schedule, n)
+			if isInterplay(n) && n != probePkg {
+				w.schedule = append(w.schedule, n, n)
+			}
+		}
+	}
+	return w.schedule
+}
+
 func (w *Worker) pickPkgs(r *simrt.Rand, index, n int) []string {
 	names := w.index.Names
-	out := []string{names[index%len(names)]}
+	sched := w.visitSchedule()
+	out := []string{sched[index%len(sched)]}
 	for len(out) < n {
+		if r.Intn(4) == 0 { // one of the hand-written interplay packages
+			var hw []string
+			for _, nm := range names {
+				if strings.HasPrefix(nm, "x_") || strings.HasPrefix(nm, "o_") {
+					hw = append(hw, nm)
+				}
+			}
+			if len(hw) > 0 {
+				out = append(out, hw[r.Intn(len(hw))])
+				continue
+			}
+		}
 		out = append(out, names[r.Intn(len(names))])
 	}
 	return out
